@@ -12,7 +12,7 @@ import subprocess
 
 import vcheck as V
 
-RUNPROG = os.path.join(V.HARNESS, "target", "debug", "runprog")
+RUNPROG = os.path.join(V.TARGET, "debug", "runprog")
 
 BAR, BLANK = "│  ", "   "
 TEE, CORNER = "├─ ", "╰─ "
@@ -195,6 +195,46 @@ def gen_program(rnd, pid, size=None, roots=1, generic=True, args=True, ensure_co
     prog = {"id": pid, "crate": crates[0], "clock": {"start": 1000, "read_step": rnd.choice([0, 1]), "precision": 1},
             "benches": benches, "groups": groups, "ginst": ginst, "push": push, "builder": [], "entry": "main"}
     return prog
+
+
+def forests(max_depth, max_fan):
+    """All forests Painter.tla's MC instance explores (a tree is a list of
+    subtrees, [] is a leaf); roots are crates and therefore parents."""
+    def trees(d):
+        if d == 0:
+            return [[]]
+        sub = trees(d - 1)
+        out = [[]]
+        import itertools
+        for k in range(1, max_fan + 1):
+            out += [list(c) for c in itertools.product(sub, repeat=k)]
+        return out
+    one = [[t] for t in trees(max_depth) if t]
+    two = [[a, b] for a in trees(max_depth - 1) if a for b in trees(max_depth - 1) if b]
+    return one + two
+
+
+def program_from_shape(forest, pid):
+    """A program whose module tree has exactly this shape: parents are
+    modules, leaves are plain benchmarks; names sort in child order."""
+    benches = []
+    line = [0]
+
+    def walk(nodes, mods):
+        for i, sub in enumerate(nodes):
+            name = f"n{i + 1}"
+            if sub == []:
+                line[0] += 3
+                benches.append({"mods": mods, "raw": name, "name": name, "file": "src/a.rs", "line": line[0],
+                                "col": 1, "kind": "plain", "opts": {"sample_count": 1, "sample_size": 1},
+                                "has_opts": True, "cost": 100})
+            else:
+                walk(sub, mods + [name])
+    for r, tree in enumerate(forest):
+        walk(tree, [f"crate{r + 1}"])
+    return {"id": pid, "crate": "crate1", "clock": {"start": 1000, "read_step": 0, "precision": 1},
+            "benches": benches, "groups": [], "ginst": [],
+            "push": [["b", i] for i in range(len(benches))], "builder": [], "entry": "main"}
 
 
 def render_program(prog):
